@@ -26,6 +26,8 @@ pub struct Case {
     pub subscribe_at: usize,
     /// does the subscriber read after snapshot i
     pub drain: Vec<bool>,
+    /// does the subscriber read right after subscribing (it is handed the most recent change)
+    pub read_at_subscribe: bool,
     pub seed: u64,
 }
 
@@ -89,7 +91,7 @@ impl Prop for C16 {
         let subscribe_at = if src.chance(1, 2) { 0 } else { src.below(n + 1) };
         let drain_all = src.chance(1, 2);
         let drain = (0..n).map(|_| drain_all || src.chance(1, 2)).collect();
-        Case { snapshots, back_to_back, subscribe_at, drain, seed: src.word() }
+        Case { snapshots, back_to_back, subscribe_at, drain, read_at_subscribe: src.chance(1, 2), seed: src.word() }
     }
 
     fn run(&self, case: &Case) -> Outcome {
@@ -102,6 +104,7 @@ impl Prop for C16 {
             "published_back_to_back_with_next": case.back_to_back,
             "subscribe_before_snapshot": case.subscribe_at,
             "subscriber_reads_after_snapshot": case.drain,
+            "subscriber_reads_right_after_subscribing": case.read_at_subscribe,
         })
     }
 
@@ -168,10 +171,46 @@ async fn run(case: &Case) -> Outcome {
     let mut skipped = false;
 
     for i in 0..=n {
+        if i == case.subscribe_at && pending_unconsumed {
+            // the previous snapshot was published without giving the node's publisher a chance to run;
+            // subscribing and reading now would let it run: settle it first, so the model knows what the
+            // publisher has consumed (the back-to-back class then simply does not apply to this snapshot)
+            tokio::time::sleep(Duration::from_millis(1)).await;
+            pending_unconsumed = false;
+            consumed_prev = consumed.clone();
+            consumed = case.snapshots[i - 1].clone();
+            if stream.is_some() {
+                published += 1;
+            }
+        }
         if i == case.subscribe_at {
             stream = Some(node.membership_changes());
             // anything that joined before this moment was announced before we listened
             missed_before_subscription = !consumed.is_empty() || i > 0;
+            if case.read_at_subscribe {
+                // a watch channel hands a new subscriber the most recent value: the change computed for the
+                // last snapshot the publisher consumed (for a fresh node: its own start-up snapshot, which
+                // has no other members)
+                let st = stream.as_mut().unwrap();
+                while let Ok(Some(delta)) = tokio::time::timeout(Duration::from_millis(1), st.next()).await {
+                    first_read = false;
+                    let (joined, left, dup) = delta_maps(&delta);
+                    let (ej, el) = expected_delta(&consumed_prev, &consumed);
+                    if (joined != ej || left != el || dup) && first_wrong.is_none() {
+                        every_observed_correct = false;
+                        first_wrong = Some(format!(
+                            "right after subscribing before snapshot {i}: handed joined={:?} left={:?}, but the last membership change was {:?} -> {:?} (expected joined={:?} left={:?})",
+                            joined, left, consumed_prev, consumed, ej, el
+                        ));
+                    }
+                    for id in left.keys() {
+                        held.remove(id);
+                    }
+                    for (id, a) in joined {
+                        held.insert(id, a);
+                    }
+                }
+            }
         }
         if i == n {
             break;
